@@ -1,21 +1,37 @@
-import PymocaVerif.Lemmas.AliasRel
+import PymocaVerif.Lemmas.AliasRelSpec
 /-!
 # C17 — the alias relation is a signed equivalence under any operation history
 
-Property theorems only (helper lemmas live in `Lemmas/AliasRel.lean`).
+Property theorems only (helper lemmas live in `Lemmas/AliasRel*.lean`).  `WFR s` is the full
+invariant: `_aliases` is a signed partition (`ARInv`), `_canonical_variables_map` is defined on
+exactly the stored names and gives every member of a class the same canonical name with the sign
+of the member, `_canonical_variables` is the duplicate-free set of those canonical names.
 -/
 namespace PymocaVerif.AliasRel
+
+/-! ## Single operations -/
 
 /-- `add` never trips its `assert`, and keeps the class invariant, whenever the call is
     admissible (does not relate a variable to its own negation). -/
 theorem add_keeps_class_invariant (s : AR) (h : ARInv s) (a b : SName)
     (hpre : b ∉ s.aliases (tog a)) : ∃ s', s.add a b = some s' ∧ ARInv s' := by
   by_cases hb : b ∈ s.aliases a
-  · refine ⟨s, ?_, h⟩
-    have : a ∈ s.aliases b := aliases_symm s h hb
-    simp [AR.add, hb, this]
-  · refine ⟨_, by simp only [AR.add, hb, if_false]; rfl, ?_⟩
-    exact addAl_inv s _ h a b hpre rfl
+  · exact ⟨s, add_noop s h a b hb, h⟩
+  · exact ⟨_, add_eff s a b hb, addAl_inv s _ h a b hpre rfl⟩
+
+example : ARInv exS1 ∧ ((true, "c") : SName) ∉ exS1.aliases (tog (false, "b")) := ⟨exS1_wfr.cls, by decide⟩
+
+/-- `add` keeps the full invariant (classes, canonical map, canonical-variables set). -/
+theorem add_refines (s : AR) (w : WFR s) (a b : SName) (hpre : b ∉ s.aliases (tog a)) :
+    ∃ s', s.add a b = some s' ∧ WFR s' := by
+  by_cases hb : b ∈ s.aliases a
+  · exact ⟨s, add_noop s w.cls a b hb, w⟩
+  · exact ⟨_, add_eff s a b hb, addRes_wfr s w a b hb hpre⟩
+
+-- non-vacuity (state after a ~ b, b ~ -c): the invariant holds and the class of a is {a, b, -c}
+example : WFR exS2 ∧ exS2.aliases (false, "a") = [(false, "a"), (false, "b"), (true, "c")] ∧
+    (true, "c") ∉ exS1.aliases (false, "b") ∧ (true, "c") ∉ exS1.aliases (tog (false, "b")) :=
+  ⟨exS2_wfr, by decide, by decide, by decide⟩
 
 /-- `aliases()` after an effective `add(a, b)`: the class of `a` and of `b` are united, the
     classes of their negations are united, every other class is unchanged. -/
@@ -25,12 +41,383 @@ theorem aliases_after_add (s s' : AR) (a b x y : SName) (hb : b ∉ s.aliases a)
       (if x ∈ s.aliases a ++ s.aliases b then y ∈ s.aliases a ++ s.aliases b
        else if tog x ∈ s.aliases a ++ s.aliases b then y ∈ s.aliases (tog a) ++ s.aliases (tog b)
        else y ∈ s.aliases x) := by
-  simp only [AR.add, hb, if_false, Option.some.injEq] at hs
-  subst hs
-  exact mem_aliases_add s _ a b x y rfl
+  rw [add_eff s a b hb] at hs
+  cases hs
+  exact aliases_addRes s a b x y
 
--- non-vacuity: a ~ -b is admissible on the empty relation and gives the expected classes
-example : ARInv AR.empty ∧ ((true, "b") : SName) ∉ AR.empty.aliases (tog (false, "a")) := by
-  refine ⟨empty_inv, ?_⟩; decide
+example : exS1.add (false, "b") (true, "c") = some exS2 ∧ (true, "c") ∉ exS1.aliases (false, "b") :=
+  ⟨add_eff exS1 _ _ (by decide), by decide⟩
+
+/-- the canonical name of the merged class is the one of `a`'s class, with `a`'s sign -/
+theorem canonical_after_add (s s' : AR) (a b x : SName) (hb : b ∉ s.aliases a) (hs : s.add a b = some s') :
+    s'.canonicalSigned x =
+      if tog x ∈ s.aliases a ++ s.aliases b then flipIf true (s.canonicalSigned a)
+      else if x ∈ s.aliases a ++ s.aliases b then s.canonicalSigned a else s.canonicalSigned x := by
+  rw [add_eff s a b hb] at hs
+  cases hs
+  exact can_addRes s a b x
+
+-- the merged class {a, b, -c} keeps a's canonical name; -c has sign +1, c has sign -1
+example : exS2.canonicalSigned (true, "c") = ("a", false) ∧ exS2.canonicalSigned (false, "c") = ("a", true) ∧
+    exS2.cv = ["a"] := by decide
+
+/-- `remove` never raises under the invariant and keeps it. -/
+theorem remove_refines (s : AR) (w : WFR s) (a : SName) : ∃ s', s.remove a = some s' ∧ WFR s' := by
+  by_cases h : a.1 = true ∨ a.2 ∉ s.cv
+  · exact ⟨s, remove_noop s a h, w⟩
+  · have h1 : a.1 = false := by
+      cases ha : a.1 with
+      | false => rfl
+      | true => exact absurd (Or.inl ha) h
+    have h2 : a.2 ∈ s.cv := by
+      apply Classical.byContradiction; intro hn; exact h (Or.inr hn)
+    exact ⟨_, remove_eff s w a h1 h2, removeRes_wfr s w a h1 h2⟩
+
+-- a is canonical in exS2: remove dissolves; b is not: no-op; both without exception
+example : WFR exS2 ∧ (exS2.remove (false, "a")).isSome ∧ exS2.remove (false, "b") = some exS2 :=
+  ⟨exS2_wfr, by rw [remove_eff exS2 exS2_wfr _ rfl (by decide)]; rfl, remove_noop exS2 _ (by decide)⟩
+
+/-- `remove(a)` for a canonical name dissolves exactly the class of `a` and that of `-a`: their
+    members become singletons with the default canonical name, everything else is unchanged;
+    for any other argument `remove` does nothing. -/
+theorem remove_dissolves (s s' : AR) (w : WFR s) (a : SName) (hs : s.remove a = some s') :
+    (a.1 = false ∧ a.2 ∈ s.cv →
+      ∀ x, (s'.aliases x = if x ∈ s.aliases a ++ s.aliases (tog a) then [x] else s.aliases x) ∧
+           (s'.canonicalSigned x = if x ∈ s.aliases a ++ s.aliases (tog a) then (x.2, x.1) else s.canonicalSigned x) ∧
+           (a.2 ∉ s'.cv)) ∧
+    (¬ (a.1 = false ∧ a.2 ∈ s.cv) → s' = s) := by
+  constructor
+  · intro ⟨h1, h2⟩ x
+    rw [remove_eff s w a h1 h2] at hs
+    cases hs
+    refine ⟨aliases_removeRes s a x, can_removeRes s a x, ?_⟩
+    simp [AR.removeRes]
+  · intro hn
+    have : a.1 = true ∨ a.2 ∉ s.cv := by
+      cases ha : a.1 with
+      | true => exact Or.inl rfl
+      | false => exact Or.inr (fun hc => hn ⟨ha, hc⟩)
+    rw [remove_noop s a this] at hs
+    cases hs; rfl
+
+example : exS2.remove (false, "a") = some (exS2.removeRes (false, "a")) ∧
+    (exS2.removeRes (false, "a")).aliases (false, "b") = [(false, "b")] ∧ (exS2.removeRes (false, "a")).cv = [] :=
+  ⟨remove_eff exS2 exS2_wfr _ rfl (by decide), by decide, by decide⟩
+
+/-- `remove` is effective exactly for the canonical name of a non-trivial class -/
+theorem remove_effective_iff (s : AR) (w : WFR s) (c : String) :
+    c ∈ s.cv ↔ (s.canonicalSigned (false, c) = (c, false) ∧ ∃ y, y ∈ s.aliases (false, c) ∧ y ≠ (false, c)) := by
+  constructor
+  · intro hc
+    have hcc : s.canonicalSigned (false, c) = (c, false) := by
+      simp [AR.canonicalSigned, (w.cv_iff c).1 hc]
+    refine ⟨hcc, ?_⟩
+    have := (cv_iff_canonical s w (false, c)).1 (by rw [hcc]; exact hc)
+    exact this
+  · intro ⟨hcc, hnt⟩
+    have := (cv_iff_canonical s w (false, c)).2 hnt
+    rw [hcc] at this; exact this
+
+example : "a" ∈ exS2.cv ∧ "b" ∉ exS2.cv ∧ exS2.canonicalSigned (false, "b") = ("a", false) := by decide
+
+/-- `copy` gives a relation with the same observables that satisfies the invariant. -/
+theorem copy_refines (s : AR) (w : WFR s) : WFR s.copy ∧ s.copy = s := ⟨w, rfl⟩
+
+example : WFR exS2.copy := (copy_refines exS2 exS2_wfr).1
+
+/-! ## What the invariant says about the observables -/
+
+/-- `aliases()` is the class of a signed partition: reflexive, symmetric, transitive, compatible
+    with negation, and no name is in the class of its own negation. -/
+theorem aliases_is_class (s : AR) (w : WFR s) (x y z : SName) :
+    x ∈ s.aliases x ∧ (y ∈ s.aliases x → x ∈ s.aliases y) ∧
+    (y ∈ s.aliases x → z ∈ s.aliases y → z ∈ s.aliases x) ∧
+    (y ∈ s.aliases (tog x) ↔ tog y ∈ s.aliases x) ∧ tog x ∉ s.aliases x :=
+  ⟨mem_aliases_self s w.cls x, aliases_symm s w.cls, aliases_trans s w.cls, aliases_tog s w.cls x y,
+   tog_not_mem_aliases s w.cls x⟩
+
+example : WFR exS2 ∧ (true, "c") ∈ exS2.aliases (false, "b") ∧ (false, "c") ∈ exS2.aliases (tog (false, "b")) :=
+  ⟨exS2_wfr, by decide, by decide⟩
+
+/-- `canonical_signed()`: all members of a class share the canonical name and sign, the negation
+    has the flipped sign, and the canonical name (with that sign) is a member of the class. -/
+theorem canonical_consistent (s : AR) (w : WFR s) (x y : SName) :
+    (y ∈ s.aliases x → s.canonicalSigned y = s.canonicalSigned x) ∧
+    s.canonicalSigned (tog x) = ((s.canonicalSigned x).1, !(s.canonicalSigned x).2) ∧
+    ((s.canonicalSigned x).2, (s.canonicalSigned x).1) ∈ s.aliases x ∧
+    ((s.canonicalSigned x).1 = (s.canonicalSigned y).1 ↔ (y ∈ s.aliases x ∨ y ∈ s.aliases (tog x))) := by
+  refine ⟨w.can_eq x y, ?_, w.can_mem x, same_canonical_iff s w x y⟩
+  rw [w.can_neg x]; simp [flipIf]
+
+example : WFR exS2 ∧ exS2.canonicalSigned (false, "b") = exS2.canonicalSigned (true, "c") ∧
+    exS2.canonicalSigned (tog (false, "b")) = ("a", true) := ⟨exS2_wfr, by decide, by decide⟩
+
+/-- Iteration yields exactly one entry per non-trivial class (pair of a class and its negation):
+    the first components are duplicate-free, a name's canonical name occurs iff its class is
+    non-trivial, and each entry is (canonical name, the rest of its class), the rest non-empty. -/
+theorem iter_one_per_class (s : AR) (w : WFR s) :
+    (s.iter.map (·.1)).Nodup ∧
+    (∀ x, (s.canonicalSigned x).1 ∈ s.iter.map (·.1) ↔ ∃ y, y ∈ s.aliases x ∧ y ≠ x) ∧
+    (∀ e ∈ s.iter, s.canonicalSigned (false, e.1) = (e.1, false) ∧ e.2 ≠ [] ∧
+        ∀ y, y ∈ e.2 ↔ (y ∈ s.aliases (false, e.1) ∧ y ≠ (false, e.1))) := by
+  have hfst : s.iter.map (·.1) = s.cv := by
+    simp only [AR.iter, List.map_map]
+    have : ((fun x : String × List SName => x.1) ∘ fun c => (c, (s.aliases (false, c)).filter (· != (false, c)))) = id := rfl
+    rw [this, List.map_id]
+  refine ⟨by rw [hfst]; exact w.cv_nodup, ?_, ?_⟩
+  · intro x; rw [hfst]; exact cv_iff_canonical s w x
+  · intro e he
+    simp only [AR.iter, List.mem_map] at he
+    obtain ⟨c, hc, rfl⟩ := he
+    obtain ⟨hcc, y, hy, hne⟩ := (remove_effective_iff s w c).1 hc
+    refine ⟨hcc, ?_, ?_⟩
+    · intro hnil
+      have : y ∈ (s.aliases (false, c)).filter (· != (false, c)) := by
+        simp [List.mem_filter, hy, hne]
+      simp only at hnil
+      rw [hnil] at this; cases this
+    · intro z; simp [List.mem_filter]
+
+example : WFR exS2 ∧ exS2.iter = [("a", [(false, "b"), (true, "c")])] := ⟨exS2_wfr, by decide⟩
+
+/-! ## Histories -/
+
+/-- **History theorem**: for every admissible history of `add`/`remove`/`copy` over any number of
+    relation objects, no operation raises and every object satisfies the invariant afterwards
+    (hence `aliases_is_class`, `canonical_consistent`, `iter_one_per_class` hold after every step). -/
+theorem history_safe (ops : List Op) (st : Store) (hw : ∀ o, WFR (st o)) (ha : AdmissibleH st ops) :
+    ∃ st', run st ops = some st' ∧ ∀ o, WFR (st' o) := by
+  induction ops generalizing st with
+  | nil => exact ⟨st, rfl, hw⟩
+  | cons op ops ih =>
+    obtain ⟨st1, h1, hw1⟩ := step_safe st hw op ha.1
+    obtain ⟨st2, h2, hw2⟩ := ih st1 hw1 (ha.2 st1 h1)
+    exact ⟨st2, by simp [run, h1, h2], hw2⟩
+
+theorem history_from_empty (ops : List Op) (ha : AdmissibleH Store.init ops) :
+    ∃ st', run Store.init ops = some st' ∧ ∀ o, WFR (st' o) :=
+  history_safe ops Store.init (fun _ => empty_wfr) ha
+
+-- non-vacuity: a ~ b, b ~ -c, copy 0 → 1, remove a on the copy
+example : AdmissibleH Store.init
+    [.add 0 (false, "a") (false, "b"), .add 0 (false, "b") (true, "c"), .copy 0 1, .remove 1 (false, "a")] := by
+  refine ⟨by decide, fun st1 h1 => ⟨?_, fun st2 h2 => ⟨rfl, fun st3 h3 => ⟨rfl, fun _ _ => trivial⟩⟩⟩⟩
+  simp only [step, Option.map] at h1
+  cases h1
+  decide
+
+example : ∀ op ∈ ([.add 0 (false, "a") (false, "b"), .copy 0 1, .remove 1 (false, "a")] : List Op), op.target ≠ 2 := by
+  decide
+
+/-- **A copy evolves independently of its source**: a history that never writes object `d` leaves
+    it unchanged, whatever happens to the other objects (in particular to the source or the copies
+    of `d`); and `copy src dst` makes `dst` equal to `src`. -/
+theorem copy_independent (ops : List Op) (st st' : Store) (d : Nat) (hd : ∀ op ∈ ops, op.target ≠ d)
+    (hr : run st ops = some st') : st' d = st d := by
+  induction ops generalizing st with
+  | nil => simp [run] at hr; rw [hr]
+  | cons op ops ih =>
+    simp only [run, Option.bind_eq_some_iff] at hr
+    obtain ⟨st1, h1, h2⟩ := hr
+    have e := ih st1 (fun op' m => hd op' (by simp [m])) h2
+    rw [e]
+    have ht := hd op (by simp)
+    cases op with
+    | add o a b =>
+      simp only [step, Option.map_eq_some_iff] at h1
+      obtain ⟨s', _, rfl⟩ := h1
+      simp only [Op.target] at ht
+      have hdo : ¬ d = _ := fun e => ht e.symm
+      simp [hdo]
+    | remove o a =>
+      simp only [step, Option.map_eq_some_iff] at h1
+      obtain ⟨s', _, rfl⟩ := h1
+      simp only [Op.target] at ht
+      have hdo : ¬ d = _ := fun e => ht e.symm
+      simp [hdo]
+    | copy src dst =>
+      simp only [step, Option.some.injEq] at h1
+      subst h1
+      simp only [Op.target] at ht
+      have hdo : ¬ d = _ := fun e => ht e.symm
+      simp [hdo]
+
+-- after `copy 0 1` the history only writes object 1: object 0 keeps the class {a, b}
+example : ∃ st', run Store.init [.add 0 (false, "a") (false, "b"), .copy 0 1] = some st' ∧
+    (∀ op ∈ ([.remove 1 (false, "a"), .add 1 (false, "x") (true, "b")] : List Op), op.target ≠ 0) :=
+  ⟨_, rfl, by decide⟩
+
+theorem copy_equals_source (st st' : Store) (src dst : Nat) (h : step st (.copy src dst) = some st') :
+    st' dst = st src := by
+  simp only [step, Option.some.injEq] at h
+  subst h; simp [AR.copy]
+
+example : ∃ st', step Store.init (.copy 0 1) = some st' := ⟨_, rfl⟩
+
+/-! ## The relation is the signed closure of the added pairs minus the removed classes -/
+
+/-- After an admissible `add(a, b)` the relation is the signed closure of the old relation and
+    the new pair. -/
+theorem add_closure (s s' : AR) (w : WFR s) (a b : SName) (hpre : b ∉ s.aliases (tog a))
+    (hs : s.add a b = some s') (x y : SName) : relOf s' x y ↔ SClos (relOf s) a b x y := by
+  have h := w.cls
+  by_cases hb : b ∈ s.aliases a
+  · rw [add_noop s h a b hb] at hs
+    cases hs
+    constructor
+    · exact fun hxy => SClos.base hxy
+    · intro c
+      induction c with
+      | base r => exact r
+      | pair => exact hb
+      | refl => exact mem_aliases_self s h _
+      | symm _ ih => exact aliases_symm s h ih
+      | trans _ _ ih1 ih2 => exact aliases_trans s h ih1 ih2
+      | neg _ ih => exact (aliases_tog s h _ _).2 (by simpa [relOf] using ih)
+  · rw [add_eff s a b hb] at hs
+    cases hs
+    have w' := addRes_wfr s w a b hb hpre
+    have h' := w'.cls
+    have inA : ∀ z, z ∈ AA s a b → SClos (relOf s) a b a z := by
+      intro z hz
+      rcases List.mem_append.1 hz with hz | hz
+      · exact SClos.base hz
+      · exact SClos.trans SClos.pair (SClos.base hz)
+    constructor
+    · intro hxy
+      simp only [relOf] at hxy
+      rw [aliases_addRes] at hxy
+      by_cases h1 : x ∈ AA s a b
+      · simp only [h1, if_true] at hxy
+        exact SClos.trans (SClos.symm (inA x h1)) (inA y hxy)
+      · by_cases h2 : tog x ∈ AA s a b
+        · simp only [h1, h2, if_true, if_false] at hxy
+          have hy : tog y ∈ AA s a b := (memI s h a b y).1 hxy
+          have := SClos.neg (SClos.trans (SClos.symm (inA _ h2)) (inA _ hy))
+          simpa using this
+        · simp only [h1, h2, if_false] at hxy
+          exact SClos.base hxy
+    · intro c
+      induction c with
+      | @base x y r =>
+        simp only [relOf] at r ⊢
+        rw [aliases_addRes]
+        by_cases h1 : x ∈ AA s a b
+        · simp only [h1, if_true]; exact closedA s h a b x y h1 r
+        · by_cases h2 : tog x ∈ AA s a b
+          · simp only [h1, h2, if_true, if_false]
+            rw [memI s h a b]
+            exact closedA s h a b (tog x) (tog y) h2 ((aliases_tog s h x (tog y)).2 (by simpa using r))
+          · simp only [h1, h2, if_false]; exact r
+      | pair =>
+        simp only [relOf]
+        rw [aliases_addRes]
+        simp only [a_mem_AA s h a b, if_true]
+        exact b_mem_AA s h a b
+      | refl => exact mem_aliases_self _ h' _
+      | symm _ ih => exact aliases_symm _ h' ih
+      | trans _ _ ih1 ih2 => exact aliases_trans _ h' ih1 ih2
+      | neg _ ih => exact (aliases_tog _ h' _ _).2 (by simpa [relOf] using ih)
+
+example : WFR exS1 ∧ exS1.add (false, "b") (true, "c") = some exS2 ∧
+    SClos (relOf exS1) (false, "b") (true, "c") (false, "a") (true, "c") :=
+  ⟨exS1_wfr, add_eff exS1 _ _ (by decide),
+   SClos.trans (SClos.base (show (false, "b") ∈ exS1.aliases (false, "a") by decide)) SClos.pair⟩
+
+/-- After `remove(a)` the relation is the old one minus the class pair of `a` when `a` is the
+    canonical name of a non-trivial class, and the old one otherwise. -/
+theorem remove_closure (s s' : AR) (w : WFR s) (a : SName) (hs : s.remove a = some s') (x y : SName) :
+    relOf s' x y ↔ (if a.1 = false ∧ a.2 ∈ s.cv then dissolve (relOf s) a x y else relOf s x y) := by
+  obtain ⟨heff, hnoop⟩ := remove_dissolves s s' w a hs
+  by_cases hc : a.1 = false ∧ a.2 ∈ s.cv
+  · simp only [hc, and_self, if_true]
+    obtain ⟨hal, _, _⟩ := heff hc x
+    simp only [relOf, dissolve, hal]
+    by_cases hx : x ∈ s.aliases a ++ s.aliases (tog a)
+    · have hx' : x ∈ s.aliases a ∨ x ∈ s.aliases (tog a) := List.mem_append.1 hx
+      simp [hx, hx']
+    · have hx' : ¬ (x ∈ s.aliases a ∨ x ∈ s.aliases (tog a)) := fun m => hx (List.mem_append.2 m)
+      simp [hx, hx']
+  · rw [hnoop hc]
+    simp only [hc, if_false]
+
+example : dissolve (relOf exS2) (false, "a") (false, "b") (false, "b") ∧
+    ¬ dissolve (relOf exS2) (false, "a") (false, "b") (true, "c") := by
+  constructor
+  · exact Or.inl ⟨Or.inl (show (false, "b") ∈ exS2.aliases (false, "a") by decide), rfl⟩
+  · intro h
+    rcases h with ⟨_, e⟩ | ⟨hn, _⟩
+    · cases e
+    · exact hn (Or.inl (show (false, "b") ∈ exS2.aliases (false, "a") by decide))
+
+/-- **Closure characterisation**: along every admissible history the relation of every object equals
+    the signed union-find closure of the added pairs minus the removed classes (copies start from
+    their source's relation). -/
+theorem closure_char (ops : List Op) (st : Store) (R : Nat → Rel) (hw : ∀ o, WFR (st o))
+    (hR : ∀ o x y, relOf (st o) x y ↔ R o x y) (ha : AdmissibleH st ops) :
+    ∃ st', run st ops = some st' ∧ ∀ o x y, relOf (st' o) x y ↔ specRun R st ops o x y := by
+  induction ops generalizing st R with
+  | nil => exact ⟨st, rfl, hR⟩
+  | cons op ops ih =>
+    obtain ⟨st1, h1, hw1⟩ := step_safe st hw op ha.1
+    have hR1 : ∀ o x y, relOf (st1 o) x y ↔ specStep R st op o x y := by
+      intro o x y
+      cases op with
+      | add o' a b =>
+        have ha1 := ha.1
+        simp only [admissible, Bool.not_eq_true', decide_eq_false_iff_not] at ha1
+        simp only [step, Option.map_eq_some_iff] at h1
+        obtain ⟨s', hs', rfl⟩ := h1
+        simp only [specStep]
+        by_cases ho : o = o'
+        · subst ho
+          simp only [if_true]
+          rw [add_closure (st o) s' (hw o) a b ha1 hs' x y]
+          exact sclos_congr _ _ (hR o) a b x y
+        · simp only [ho, if_false]; exact hR o x y
+      | remove o' a =>
+        simp only [step, Option.map_eq_some_iff] at h1
+        obtain ⟨s', hs', rfl⟩ := h1
+        simp only [specStep]
+        by_cases ho : o = o'
+        · subst ho
+          simp only [if_true]
+          rw [remove_closure (st o) s' (hw o) a hs' x y]
+          by_cases hc : a.1 = false ∧ a.2 ∈ (st o).cv
+          · simp only [hc, and_self, if_true, dissolve, hR o]
+          · simp only [hc, if_false]; exact hR o x y
+        · simp only [ho, if_false]; exact hR o x y
+      | copy src dst =>
+        simp only [step, Option.some.injEq] at h1
+        subst h1
+        simp only [specStep]
+        by_cases ho : o = dst
+        · simp only [ho, if_true, AR.copy]; exact hR src x y
+        · simp only [ho, if_false]; exact hR o x y
+    obtain ⟨st2, h2, hrel⟩ := ih st1 (specStep R st op) hw1 hR1 (ha.2 st1 h1)
+    refine ⟨st2, by simp [run, h1, h2], ?_⟩
+    intro o x y
+    have e : specRun R st (op :: ops) = specRun (specStep R st op) st1 ops := by
+      simp only [specRun, h1]
+    rw [e]
+    exact hrel o x y
+
+example : (∀ o, WFR (Store.init o)) ∧ (∀ o x y, relOf (Store.init o) x y ↔ y = x) :=
+  ⟨fun _ => empty_wfr, fun o x y => by simp [relOf, Store.init, AR.empty, AR.aliases]⟩
+
+/-- from the empty relations: the initial relation of every object is equality -/
+theorem closure_char_from_empty (ops : List Op) (ha : AdmissibleH Store.init ops) :
+    ∃ st', run Store.init ops = some st' ∧
+      ∀ o x y, relOf (st' o) x y ↔ specRun (fun _ x y => y = x) Store.init ops o x y :=
+  closure_char ops Store.init _ (fun _ => empty_wfr)
+    (fun o x y => by simp [relOf, Store.init, AR.empty, AR.aliases]) ha
+
+-- the specification of the example history relates a and -c in object 0 and keeps them related after the
+-- copy's class was removed
+example : specRun (fun _ x y => y = x) Store.init
+    [.add 0 (false, "a") (false, "b"), .add 0 (false, "b") (true, "c"), .copy 0 1, .remove 1 (false, "a")]
+    0 (false, "a") (true, "c") := by
+  simp only [specRun, step, Option.map, AR.add, AR.copy, AR.remove]
+  exact SClos.trans (SClos.base SClos.pair) SClos.pair
 
 end PymocaVerif.AliasRel
